@@ -15,6 +15,7 @@ import (
 	"path/filepath"
 	"sort"
 	"strings"
+	"sync"
 	"time"
 
 	"github.com/spali/go-rscp/rscp"
@@ -33,6 +34,7 @@ type prop struct {
 	// nontrivial says whether the case reaches past the first validation step
 	nontrivial func(c, res string) bool
 	rule       string
+	parallel   int // > 1: cases are independent and may run concurrently
 }
 
 var props = map[string]*prop{}
@@ -95,8 +97,29 @@ func main() {
 	dist := map[string]int{}
 	distinct := map[string]bool{}
 	nontrivial := 0
+	results := make([]string, len(cases))
+	if p.parallel > 1 {
+		rscp.Now = func() time.Time { return time.Unix(tcpSec, tcpNsec) }
+		// independent sessions against independent devices may run concurrently (that they do not interfere is C17)
+		sem := make(chan struct{}, p.parallel)
+		var wg sync.WaitGroup
+		for i := range cases {
+			wg.Add(1)
+			sem <- struct{}{}
+			go func(i int) {
+				defer wg.Done()
+				results[i] = safeRun(p, cases[i])
+				<-sem
+			}(i)
+		}
+		wg.Wait()
+	} else {
+		for i := range cases {
+			results[i] = safeRun(p, cases[i])
+		}
+	}
 	for i, c := range cases {
-		res := safeRun(p, c)
+		res := results[i]
 		fmt.Fprintln(cw, c)
 		fmt.Fprintln(iw, res)
 		if msg := p.pred(c, res); msg != "" {
